@@ -326,7 +326,7 @@ def run(pid, tier, seed, a):
         for ob, q, s in sat_obs:
             if ob["target"] == "complete_iteration":
                 rp = replay_c18(pid, ctx, ob, q, solver, a)
-            elif ob["target"] in ("complete_candidates", "complete_option_state"):
+            elif ob["target"] in ("complete_candidates", "complete_option_state", "shell_adapter_index"):
                 rp = replay_native_crate(pid, ctx, ob, q, solver, "c18", "C18-REPLAY")
             elif ob["target"] == "mangen":
                 rp = replay_native_crate(pid, ctx, ob, q, solver, "c19", "C19-REPLAY")
